@@ -218,6 +218,9 @@ def discharge(ctx, ob, timeout_ms=10000, portfolio=True):
             s = make_solver(hyps + inst, ob.goal, first_ms)
             r = s.check()
             ob.notes = list(ob.notes) + ["fold induction lemma: point-wise equal pieces give equal folds"]
+    if r != z3.unsat and literal_case_split(hyps + inst, ob.goal, first_ms):
+        r = z3.unsat
+        ob.notes = list(ob.notes) + ["case split over a finite disjunction of literal values"]
     ob.seconds = time.time() - t0
     ob.backend = "z3-" + z3.get_version_string()
     if r == z3.unsat:
@@ -372,6 +375,77 @@ def equal_by_cases(hyps, ta, tb, budget):
     return True
 
 
+def literal_case_split(hyps, goal, timeout_ms):
+    """If some hypothesis is `x == l1 or ... or x == ln` (literals), prove the goal for each value of x separately
+    after substituting it (the simplifier then folds string slices, table lookups etc.)."""
+    from .engine import _is_literal_term
+    for h in hyps:
+        if not z3.is_or(h) or h.num_args() > 8:
+            continue
+        alts = []
+        var = None
+        ok = True
+        for d in h.children():
+            if not z3.is_eq(d):
+                ok = False
+                break
+            a, b = d.arg(0), d.arg(1)
+            if _is_literal_term(b) and not _is_literal_term(a):
+                x, lit = a, b
+            elif _is_literal_term(a) and not _is_literal_term(b):
+                x, lit = b, a
+            else:
+                ok = False
+                break
+            if var is None:
+                var = x
+            elif not z3.eq(var, x):
+                ok = False
+                break
+            alts.append(lit)
+        if not ok or var is None or len(alts) < 2:
+            continue
+        all_ok = True
+        for lit in alts:
+            s = z3.Solver()
+            s.set("timeout", timeout_ms)
+            for hh in hyps:
+                s.add(simp(z3.substitute(hh, (var, lit))))
+            s.add(simp(z3.Not(z3.substitute(goal, (var, lit)))))
+            if s.check() != z3.unsat:
+                all_ok = False
+                break
+        if all_ok:
+            return True
+    return False
+
+
+def _const_masks(terms):
+    """Constant arrays (store chains over a constant array with literal indices) used as masks in the terms."""
+    out = {}
+    seen = set()
+    stack = list(terms)
+
+    def is_const_arr(t):
+        while z3.is_app(t) and t.decl().kind() == z3.Z3_OP_STORE:
+            from .engine import _is_literal_term
+            if not _is_literal_term(t.arg(1)):
+                return False
+            t = t.arg(0)
+        return z3.is_app(t) and t.decl().kind() == z3.Z3_OP_CONST_ARRAY
+    while stack:
+        t = stack.pop()
+        if t.get_id() in seen:
+            continue
+        seen.add(t.get_id())
+        if z3.is_app(t):
+            if t.sort() == smt.SetA and t.decl().kind() == z3.Z3_OP_STORE and is_const_arr(t):
+                out[t.get_id()] = t
+                continue
+            stack.extend(t.children())
+    return list(out.values())
+
+
 def pointwise_lemmas(ctx, hyps, terms, timeout_ms):
     apps = _apps_of(terms, set(ctx.folds))
     names = sorted(apps)
@@ -408,6 +482,22 @@ def pointwise_lemmas(ctx, hyps, terms, timeout_ms):
                     ok = equal_by_cases(side, pa, pb, {"leaves": 3000, "deadline": time.time() + max(20, timeout_ms / 1000 * 3)})
                 if ok:
                     out.append(z3.Implies(z3.And(lo == y.arg(0), hi == y.arg(1)), x == y))
+                elif fa.kind == "set":
+                    # equality under a constant mask (set difference with a literal set): point-wise masked equality
+                    for M in _const_masks(terms):
+                        s2 = z3.Solver()
+                        s2.set("timeout", min(timeout_ms, 3000))
+                        for h in hyps:
+                            s2.add(h)
+                        s2.add(lo == y.arg(0), hi == y.arg(1), lo <= K, K < hi)
+                        for f in fa.facts:
+                            s2.add(z3.substitute(f, (fa.K0, K)))
+                        for f in fb.facts:
+                            s2.add(z3.substitute(f, (fb.K0, K)))
+                        s2.add(z3.SetIntersect(pa, M) != z3.SetIntersect(pb, M))
+                        if s2.check() == z3.unsat:
+                            out.append(z3.Implies(z3.And(lo == y.arg(0), hi == y.arg(1)),
+                                                  z3.SetIntersect(x, M) == z3.SetIntersect(y, M)))
     return out
 
 
